@@ -41,7 +41,7 @@ func roundTripUnderSim(c *Case, res *Result, cfg Config, data []byte, pieces []i
 func C01(c *Case) *Result {
 	res := newResult(c)
 	t := c.Tape
-	o := GenOpts{SkipOpt: true, MaxJobs: 16, MaxBlock: 64 * 1024, Headerless: true, MixedCase: true}
+	o := GenOpts{SkipOpt: true, BigParam: true, LongChains: true, MaxJobs: 16, MaxBlock: 64 * 1024, Headerless: true, MixedCase: true}
 	if c.Thorough() {
 		o.MaxJobs = 64
 		o.MaxBlock = 256 * 1024
@@ -152,7 +152,7 @@ func headInts(v []int, n int) []int {
 func C04(c *Case) *Result {
 	res := newResult(c)
 	t := c.Tape
-	o := GenOpts{SkipOpt: true, MaxJobs: 16, MaxBlock: 16 * 1024, Headerless: true}
+	o := GenOpts{SkipOpt: true, BigParam: true, LongChains: true, MaxJobs: 16, MaxBlock: 16 * 1024, Headerless: true}
 	if c.Thorough() {
 		o.MaxJobs = 64
 	}
